@@ -6,7 +6,7 @@ from lib.stubs import RecStream
 LEVEL = 'other'
 MANIFEST = {'category': 'other', 'engine': 'symx+z3',
  'technique': 'symbolic execution of the real main.main / file_input_main / piped_input_main / run_program / _Subprocess.run over a sequentialised environment model (fake subprocess, thread, pipe, text stream): the stream, the chunking of the child\'s writes, the point at which the child runs, the exit status (symbolic integer) and the program\'s argument words (opaque tokens) are explored',
- 'text': 'For every stream of <= 3 lines (quick) / 4 (thorough) from a pool (messages on two tagged connections, chatter, blank, final line without newline), every chunking of the child\'s writes (whole lines or split mid-line), every modelled schedule (child runs to completion before the parent reads / when the parent first blocks / one chunk per blocking read; the child closing its stderr at exit or long before it exits, where `long` means longer than any join timeout), both --supress settings: file, pipe and run mode produce identical out and err items; the child is started exactly once with its argument words verbatim (identical objects, words spelled like our own options included), an environment that is the parent\'s plus WAYLAND_DEBUG=1 and the library directory prepended to LD_LIBRARY_PATH, stderr = the pipe\'s write end and no stdout/stdin redirection; every line the child wrote is shown before the first prompt; main exits with the child\'s status for every status in 0..255 (symbolic). A breakpoint matcher may be set: the `Stopped at` notices are part of the display compared across modes.',
+ 'text': 'For every stream of <= 3 lines (quick) / 4 (thorough) from a pool (messages on two tagged connections, chatter, blank, final line without newline), every chunking of the child\'s writes (whole lines or split mid-line), every modelled schedule (child runs to completion before the parent reads / when the parent first blocks / one chunk per blocking read; the child closing its stderr at exit or long before it exits, where `long` means longer than any join timeout), both --supress settings: file, pipe and run mode produce identical out and err items; the child is started exactly once with its argument words verbatim (identical objects, words spelled like our own options included), an environment that is the parent\'s plus WAYLAND_DEBUG=1 and the library directory prepended to LD_LIBRARY_PATH, stderr = the pipe\'s write end and no stdout/stdin redirection; every line the child wrote is shown before the first prompt; main exits with the child\'s status for every status in 0..255 (symbolic). A breakpoint matcher may be set: the `Stopped at` notices are part of the display compared across modes. main.py executed as __main__: the program\'s own words change nothing wayland-debug itself logs or shows.',
  'note': 'A sequentialised model, stated as such: real byte chunking by the kernel, TextIOWrapper line reassembly, real thread scheduling around join(timeout=1) and real exit statuses are kernel / C library behaviour and are NOT decided here. Trusted: the environment stubs in this file, lib/symx.py.'}
 EXPLANATION = MANIFEST['text']
 ASSUMPTIONS = ['FakeTextIO.readline returns complete lines, a final fragment at EOF, and blocks while the write end is open (what io.TextIOWrapper over a pipe does)',
